@@ -213,10 +213,24 @@ func codecPurity(c *Ctx, r *Report, roots []*ssa.Function, pkgPath, rule, what s
 func handlerStateless(c *Ctx, r *Report, rule, rel, outerName string) bool {
 	outer := c.fn(rel, outerName)
 	ok := true
+	// the handler(s): the literal(s) of the constructor, or the named function / method it returns
+	var handlers []*ssa.Function
+	seenH := map[*ssa.Function]bool{outer: true}
 	for _, f := range withAnon(outer) {
-		if f == outer {
-			continue
+		if !seenH[f] {
+			seenH[f] = true
+			handlers = append(handlers, f)
 		}
+	}
+	for _, h := range returnedFuncs(outer) {
+		for _, f := range withAnon(h) {
+			if !seenH[f] {
+				seenH[f] = true
+				handlers = append(handlers, f)
+			}
+		}
+	}
+	for _, f := range handlers {
 		bad := ""
 		pos := c.rel(f.Pos())
 		for _, fv := range f.FreeVars {
